@@ -225,7 +225,7 @@ def gen_phase_shift():
     if md is None:
         raise Unsupported("c-phase: expected max_den = ...")
     max_den = QTr({"size_enc": ("size_enc", "Z")}).z(md)
-    tr = QTr({"max_den": ("max_den", "Z"), "size_enc": ("size_enc", "Z")})
+    tr = QTr({"max_den": ("max_den", "Z")})
     c = call_of(cb[1], "circuit.append_gate")
     if c is None or len(c.args) != 1:
         raise Unsupported("c-phase: expected circuit.append_gate(RzGate(...))")
@@ -283,8 +283,8 @@ def gen_phase_shift():
                "  cp_loop_tgt := fun i : Z => %s;\n"
                "  cp_loop_nctrl := fun i : Z => %s;\n"
                "  cp_glob_coef := fun max_den : Z => %s |}.\n"
-               % (max_den, first_coef.replace("size_enc", "(Z.add max_den 1%Z)"), first_tgt, lo_t, hi_t,
-                  loop_coef, loop_tgt, loop_nctrl, glob_coef.replace("size_enc", "(Z.add max_den 1%Z)")))
+               % (max_den, first_coef, first_tgt, lo_t, hi_t,
+                  loop_coef, loop_tgt, loop_nctrl, glob_coef))
     out.append("Definition gen_aux : aux_src := {|\n  ax_rz_coef := %s;\n  ax_order := [%s]%%nat |}.\n"
                % (coefs[0], "; ".join(str(k) for k in order)))
     return "\n".join(out)
